@@ -43,21 +43,15 @@ def showRet : Ret → String
 
 def fill (i : Nat) : UInt8 := UInt8.ofNat ((i * 31 + 7) % 256)
 
-/-- final content of the writable area as ranges that differ from the fill pattern -/
-def areaDiff (placed : List (Nat × Bytes)) : String :=
-  let maxEnd := placed.foldl (fun m (o, b) => max m (o + b.length)) 0
-  let arr0 : Array UInt8 := Array.ofFn (n := maxEnd) fun i => fill i.val
-  let arr := placed.foldl (fun (a : Array UInt8) (o, b) =>
-    (b.foldl (fun (st : Array UInt8 × Nat) x => (st.1.setIfInBounds st.2 x, st.2 + 1)) (a, o)).1) arr0
-  -- scan
-  let (ranges, cur, start, _) := (List.range maxEnd).foldl
-    (fun (st : List (Nat × List UInt8) × List UInt8 × Nat × Nat) i =>
-      let (rs, cur, start, _) := st
-      let v := arr.getD i 0
+/-- content of the writable area as ranges that differ from the fill pattern -/
+def areaDiff (area : Bytes) : String :=
+  let (ranges, cur, start, _) := area.foldl
+    (fun (st : List (Nat × List UInt8) × List UInt8 × Nat × Nat) v =>
+      let (rs, cur, start, i) := st
       if v != fill i then
-        if cur.isEmpty then (rs, [v], i, 0) else (rs, v :: cur, start, 0)
+        if cur.isEmpty then (rs, [v], i, i + 1) else (rs, v :: cur, start, i + 1)
       else
-        if cur.isEmpty then (rs, cur, start, 0) else ((start, cur.reverse) :: rs, [], 0, 0))
+        if cur.isEmpty then (rs, cur, start, i + 1) else ((start, cur.reverse) :: rs, [], 0, i + 1))
     ([], [], 0, 0)
   let ranges := if cur.isEmpty then ranges else (start, cur.reverse) :: ranges
   ",".intercalate (ranges.reverse.map fun (o, b) => s!"{o}:{hex b}")
@@ -65,13 +59,14 @@ def areaDiff (placed : List (Nat × Bytes)) : String :=
 def showRes (r : Res) : String :=
   "calls=" ++ ";".intercalate (r.calls.map showCall) ++
   " sys=" ++ ",".intercalate (r.out.sys.map hex) ++
-  " area=" ++ areaDiff r.out.placed ++
+  " area=" ++ areaDiff r.out.area ++
   " ret=" ++ showRet r.ret
 
 def showARes (r : SrvAsync.ARes) : String :=
   "calls=" ++ ";".intercalate (r.calls.map showCall) ++
-  " sys=" ++ ",".intercalate ((r.out.sys.zip r.out.pw).map fun (b, p) => (if p then "p:" else "v:") ++ hex b) ++
-  " area=" ++ areaDiff r.out.placed ++
+  -- the harness observes the concatenation of everything written to the (append-mode) fd
+  " sys=" ++ hex (r.out.sys.foldl (· ++ ·) []) ++
+  " area=" ++ areaDiff r.out.area ++
   " ret=" ++ showRet r.ret
 
 def optNOf (s : String) : Option Nat := if s == "none" || s.isEmpty then none else s.toNat?
